@@ -8,7 +8,8 @@
    case : <id> FMT2 <hex src> <convs>       (C03: format twice)
    out  : <id> N=<hex of f(src)>|<hex of f(f(src))> C=<...>   or notclean / U
    case : <id> TL <hex src> <convs>         (C02: the token sequence of the fragment theorem)
-   out  : <id> N=<type.hexlit,...> C=<the same>  | <id> N=notfrag C=notfrag | <id> N=notclean C=notclean *)
+   out  : <id> N=<type.hexlit,...> C=<the same>  | <id> N=notfrag C=notfrag | <id> N=notclean C=notclean
+          | <id> SKIP ...  (fragment program outside the theorem's domain: recorded finding) *)
 let mk_conv (s : string) : numconv =
   let tbl = Hashtbl.create 16 in
   if s <> "-" then
@@ -89,9 +90,10 @@ let tl_line id src convs =
   let conv = mk_conv convs in
   match front_parse conv false b with
   | POk r when clean r ->
-    (match frag_tokens conv r.pr_tree with
+    (match frag_prog_tokens conv r.pr_tree with
      | None -> id ^ " N=notfrag C=notfrag"
-     | Some ts ->
+     | Some None -> id ^ " SKIP outside the theorem's domain (a following statement continues the previous one)"
+     | Some (Some ts) ->
        let t = String.concat "," (List.map (fun t -> Printf.sprintf "%s.%s" (string_of_z t.ttype) (hex_of_bytes t.tlit)) ts) in
        Printf.sprintf "%s N=%s C=%s" id t t)
   | _ -> id ^ " N=notclean C=notclean"
